@@ -30,13 +30,13 @@ theorem wit_bfSum (w : Mat) :
   simp [bfSum, qfSum, colSum, qf, vecMat, sumTo, matOf, half]; ring
 
 theorem wit_step1 : toRows 2 2 (wUpdate witD (matOf witU) (matOf witW0) witR) = witW1 := by
-  simp [toRows, List.range_succ, wUpdate, wNum, wDen, mult, weighting, witD, dataOf, colSum, edgeSum, sumTo,
+  simp [toRows, List.range_succ, wUpdate, safeDiv, wNum, wDen, mult, weighting, witD, dataOf, colSum, edgeSum, sumTo,
     inc, witU, witW0, witW1, witR, half, wit_pois1, wit_pois2]
   simp [matOf]
   norm_num
 
 theorem wit_step2 : toRows 2 2 (wUpdate witD (matOf witU) (matOf witW1) witR) = witW2 := by
-  simp [toRows, List.range_succ, wUpdate, wNum, wDen, mult, weighting, witD, dataOf, colSum, edgeSum, sumTo,
+  simp [toRows, List.range_succ, wUpdate, safeDiv, wNum, wDen, mult, weighting, witD, dataOf, colSum, edgeSum, sumTo,
     inc, witU, witW1, witW2, witR, half, wit_pois1, wit_pois2]
   simp [matOf]
   norm_num
@@ -126,6 +126,32 @@ theorem witD_size : ∀ e < witD.E, 2 ≤ (witD.edge e).length ∧ (witD.edge e)
   interval_cases e
   · show 2 ≤ ([0, 1] : List ℕ).length ∧ ([0, 1] : List ℕ).length ≤ 3; simp
   · show 2 ≤ ([0, 2] : List ℕ).length ∧ ([0, 2] : List ℕ).length ≤ 3; simp
+
+/-! memberships in which community 1 is held by node 0 alone: the denominator of `_w_update` for the pair `(1, 1)`
+vanishes (the branch of the D46 repair), all other hypotheses of `C15_ascent` hold -/
+
+def sglU : List (List Rat) := [[3, 1], [2, 0], [1, 0]]
+
+theorem sglU_nonneg : ∀ i a, 0 ≤ matOf sglU i a := by
+  intro i a
+  unfold matOf sglU
+  match i, a with
+  | 0, 0 | 0, 1 | 1, 0 | 1, 1 | 2, 0 | 2, 1 => simp
+  | 0, a + 2 | 1, a + 2 | 2, a + 2 => simp
+  | i + 3, a => simp
+
+theorem sgl_lam : ∀ e < witD.E, 0 < poisson witD.N witD.K (matOf sglU) (matOf witW0) (witD.edge e) := by
+  intro e he
+  have he' : e < 2 := he
+  interval_cases e
+  · show 0 < poisson 3 2 (matOf sglU) (matOf witW0) [0, 1]
+    decide +kernel
+  · show 0 < poisson 3 2 (matOf sglU) (matOf witW0) [0, 2]
+    decide +kernel
+
+theorem sgl_den : wDen witD.N (matOf sglU) 1 1 + 0 = 0 := by
+  show wDen 3 (matOf sglU) 1 1 + 0 = 0
+  decide +kernel
 
 /-! a symmetric, non-diagonal affinity for the non-vacuity examples -/
 
